@@ -112,3 +112,16 @@ Theorem C12_refuted_pre_fix_revert_segmentless_collection_F38 :
     tcur_bs f' = [b_top_and_empty_child seg1].
 Proof. exact revert_pinned_refuted_F38. Qed.
 Print Assumptions C12_refuted_pre_fix_revert_segmentless_collection_F38.
+
+(* F42 (repaired, f656f50): the pinned first footer of a new data file was its own predecessor:
+   the walk never ended; the repaired code (and th_round TKNewFile) answer nil *)
+Theorem C12_refuted_pre_fix_new_file_walk_never_ends_F42 :
+  forall f b n, fn_any_segs n = true ->
+    forall fuel, th_walk fuel (th_round_newfile_pinned f b n) 0 = repeat 0 fuel.
+Proof. exact new_file_walk_pinned_never_ends_F42. Qed.
+Print Assumptions C12_refuted_pre_fix_new_file_walk_never_ends_F42.
+
+Theorem C12_new_file_walk_is_nil :
+  forall f b n fuel, th_walk fuel (th_round TKNewFile f b n) 0 = nil.
+Proof. exact new_file_walk_is_nil. Qed.
+Print Assumptions C12_new_file_walk_is_nil.
